@@ -174,35 +174,57 @@ func witnessEncodedTime(ls []issuedLogin) (bool, string) {
 	return false, "none"
 }
 
-// witnessHashSuccessor: a value that is the image, under a common hash, of a value issued just before it (a hash chain whose
-// links are handed out).
+// witnessHashSuccessor: a value (or a later part of the same value) that is the image, under a common hash, of what was issued
+// just before it - a hash chain whose links are handed out. Compared in the encoded domain, so that truncated links show too.
 func witnessHashSuccessor(ls []issuedLogin) (bool, string) {
-	type val struct {
-		name string
-		f    [][]byte
-	}
+	type val struct{ name, s string }
 	var seq []val
 	for i, l := range ls {
 		if i >= 40 {
 			break
 		}
-		for _, nv := range [][2]string{{"sid", l.sid}, {"nonce", l.nonce}, {"state", l.state}} {
-			seq = append(seq, val{nv[0], forms(nv[1])})
-		}
+		seq = append(seq, val{"sid", l.sid}, val{"nonce", l.nonce}, val{"state", l.state})
 	}
-	hits := 0
-	what := ""
-	for j := 1; j < len(seq); j++ {
-		for i := max(0, j-6); i < j; i++ {
-			for _, a := range seq[i].f {
-				if len(a) < 16 {
-					continue
-				}
-				for _, h := range hashes(a) {
-					for _, b := range seq[j].f {
-						if len(b) >= 16 && nontrivial(b[:16]) && (bytes.Equal(h, b) || bytes.HasPrefix(h, b) || bytes.HasPrefix(b, h)) {
+	encodings := func(h []byte) []string {
+		out := []string{hex.EncodeToString(h), base64.RawURLEncoding.EncodeToString(h), base64.RawStdEncoding.EncodeToString(h)}
+		for _, al := range base62Alphabets {
+			x := new(big.Int).SetBytes(h)
+			base, rem := big.NewInt(62), new(big.Int)
+			var digits []byte
+			for x.Sign() > 0 {
+				x.DivMod(x, base, rem)
+				digits = append([]byte{al[rem.Int64()]}, digits...)
+			}
+			out = append(out, string(digits))
+			for len(digits) < 43 {
+				digits = append([]byte{al[0]}, digits...)
+			}
+			out = append(out, string(digits))
+		}
+		return out
+	}
+	hits, what := 0, ""
+	for i := range seq {
+		// the byte strings the value (or its leading 43 / 44 / 22 characters) may stand for
+		for _, a := range forms(seq[i].s) {
+			if len(a) < 16 || !nontrivial(a[:16]) {
+				continue
+			}
+			for _, h := range hashes(a) {
+				for _, e := range encodings(h) {
+					if len(e) < 16 {
+						continue
+					}
+					for j := i; j < len(seq) && j <= i+6; j++ {
+						w := seq[j].s
+						if j == i && len(w) > 43 {
+							w = w[43:] // the rest of the same value, after its first link
+						} else if j == i {
+							continue
+						}
+						if len(w) >= 16 && (strings.Contains(w, e[:16]) || strings.HasPrefix(e, w[:16])) {
 							hits++
-							what = fmt.Sprintf("%s-is-a-hash-of-an-earlier-%s", seq[j].name, seq[i].name)
+							what = fmt.Sprintf("%s-continues-with-a-hash-of-an-earlier-%s", seq[j].name, seq[i].name)
 						}
 					}
 				}
